@@ -22,4 +22,31 @@ CLAIMED = {
              'differentially against int), the single-bit rewrite lemmas (proved per width on every run). Bounds: K<=2 (3 at '
              'w=8 in thorough), <=2 lazy-zero ranges; GarbageHandling.Stop only.',
         technique=_T_PYSYM + '; product-program comparison with a reference step', ref='DESIGN.md 2/C01'),
+    'C06': dict(
+        text='Bounded symbolic verification: the real Writer (add_data/add_segment/write_to_file) runs on symbolic segment '
+             'starts/lengths (any 64-bit value) and symbolic data words, the bytes it wrote are read back by the real Reader, and at '
+             'a fresh symbolic word address the loaded image is proved equal to the abstract image of the call sequence (data, then '
+             'zeros, invalid outside) - for every width, every format version and every listed call-sequence shape (shared / '
+             'touching / disjoint data ranges, empty data, trailing data). Inputs the format cannot hold (out-of-range words, '
+             '>64-bit fields, odd or out-of-pool data ranges) must be refused with FlipJumpWriteFjmException.',
+        note='LZMA is stubbed by its round-trip contract; struct/open/range stubs listed in evidence; dense/lazy zero-tail threshold '
+             'patched to 3 for the symbolic runs and re-checked concretely at 998..1002. Bounds: <=3 segments, <=8 data words.',
+        technique=_T_PYSYM, ref='DESIGN.md 2/C06'),
+    'C10': dict(
+        text='Bounded symbolic verification of the real Reader: (a) every file of length <= header + 2 segment records + 8 data '
+             'bytes whose bytes after the first 12 are all symbolic ends in a Reader or FlipJumpReadFjmException on every path; '
+             '(b) every strict prefix of writer-produced files (symbolic contents) is rejected or decodes to the same image; '
+             '(c) an arbitrary symbolic segment table is accepted only if the writer could have produced it.',
+        note='LZMA decoder stubbed (fails, or yields arbitrary bytes of listed lengths); prefix-of-stream => LZMAError is '
+             're-validated on real streams each run. Quick enumerates the file lengths around every field/record/word boundary, '
+             'thorough every length.',
+        technique=_T_PYSYM, ref='DESIGN.md 2/C10'),
+    'C17': dict(
+        text='Bounded symbolic verification of the real FixedIO / StandardIO / KeyboardIO / BrokenIO: every written bit, input '
+             'byte, event tic, direction and keycode is symbolic; counts (0..17 written bits, 0..3 input bytes, 0..3 events, up to '
+             '37 reads) are enumerated completely; outputs are proved equal to LSB-first packing, reads to the bytes\' bits with '
+             'end-of-input exactly after the last, the keyboard stream to the documented polling protocol (stable tic order).',
+        note='stdin/stdout of StandardIO stubbed (one arbitrary byte per character); script-file parsing and the pygame window '
+             'are outside the claim.',
+        technique=_T_PYSYM, ref='DESIGN.md 2/C17'),
 }
